@@ -108,6 +108,7 @@ impl Scenario {
 pub fn generate(prop: &str, tier: Tier, rng: &mut Rng) -> Scenario {
     let big = tier == Tier::Thorough;
     match prop {
+        "C06" if rng.chance(1, if big { 150 } else { 400 }) => Scenario::RoundTrip(RoundTrip::generate_large(rng, big)),
         "C06" => {
             let max_len = if big { if rng.chance(1, 10) { 60_000 } else { 6_000 } } else if rng.chance(1, 20) { 20_000 } else { 2_500 };
             Scenario::RoundTrip(RoundTrip::generate(rng, max_len))
